@@ -8,7 +8,7 @@ class NeedsDimension(Exception):
     pass
 
 
-def to_pct(size, horizontal, vw, vh):
+def to_pct(size, horizontal, vw, vh, cells_anyway=False):
     """size [value, unit] -> Fraction percent.  Raises NeedsDimension when an absolute unit needs a
     video dimension that was not supplied ('c' needs none in principle: flagged with .cells)."""
     v, unit = Fraction(str(size[0])), size[1]
@@ -16,7 +16,7 @@ def to_pct(size, horizontal, vw, vh):
         return v
     dim = vw if horizontal else vh
     if unit == 'c':
-        if dim is None:
+        if dim is None and not cells_anyway:
             e = NeedsDimension('cells')
             e.cells = True
             e.value = v * 100 / (32 if horizontal else 15)
@@ -30,17 +30,17 @@ def to_pct(size, horizontal, vw, vh):
     return px * 100 / Fraction(dim)
 
 
-def relativize(layout, vw, vh):
+def relativize(layout, vw, vh, cells_anyway=False):
     """layout spec -> same structure with Fraction percentages (or raises NeedsDimension)."""
     out = {'origin': None, 'extent': None, 'padding': None, 'alignment': layout.get('alignment')}
     if layout.get('origin'):
-        out['origin'] = [to_pct(layout['origin'][0], True, vw, vh), to_pct(layout['origin'][1], False, vw, vh)]
+        out['origin'] = [to_pct(layout['origin'][0], True, vw, vh, cells_anyway), to_pct(layout['origin'][1], False, vw, vh, cells_anyway)]
     if layout.get('extent'):
-        out['extent'] = [to_pct(layout['extent'][0], True, vw, vh), to_pct(layout['extent'][1], False, vw, vh)]
+        out['extent'] = [to_pct(layout['extent'][0], True, vw, vh, cells_anyway), to_pct(layout['extent'][1], False, vw, vh, cells_anyway)]
     if layout.get('padding'):
         b, a, s, e = [p if p is not None else [0, '%'] for p in layout['padding']]
-        out['padding'] = [to_pct(b, False, vw, vh), to_pct(a, False, vw, vh), to_pct(s, True, vw, vh),
-                          to_pct(e, True, vw, vh)]
+        out['padding'] = [to_pct(b, False, vw, vh, cells_anyway), to_pct(a, False, vw, vh, cells_anyway), to_pct(s, True, vw, vh, cells_anyway),
+                          to_pct(e, True, vw, vh, cells_anyway)]
     return out
 
 
